@@ -36,14 +36,19 @@ class C19(Prop):
     trusted_extra = ["numba parallel code generation / gufunc scheduler / hardware memory model: exercised by the "
                      "thread-count sweep, not modelled"]
 
-    def _case(self, rng, kern=None):
+    # (channels, samples): square, long-and-narrow, and wide-and-short (far more channels than samples: an
+    # iteration space that is tiny along one axis is where a kernel parallelised over the wrong axis races)
+    SHAPES = ((1, 1), (1, 7), (4, 1), (4, 9), (8, 8), (2, 21), (8, 33), (16, 257), (64, 1000), (3, 4099),
+              (256, 4), (832, 6), (1024, 3), (512, 12))
+
+    def _case(self, rng, kern=None, shape=None):
         kern = kern or rng.choice(KERNELS)
-        shape = rng.choice(((1, 1), (1, 7), (4, 1), (4, 9), (8, 8), (2, 21), (8, 33), (16, 257), (64, 1000), (3, 4099)))
+        shape = shape or rng.choice(self.SHAPES)
         C, T = shape
         c = {"kern": kern, "C": C, "T": T, "u8": rng.random() < 0.5, "dseed": rng.randrange(1 << 30),
              "reps": 2, "chunk": rng.choice((0, 1, 7))}
         if kern in ("dedisperse", "subband"):
-            c["md"] = rng.choice((0, 1, 3)) if T > 4 else 0
+            c["md"] = rng.choice((0, 1, 3, max(0, T - 2))) if T > 4 else 0
             c["nsub"] = rng.choice([k for k in (1, 2, 4, 8) if C % k == 0])
         if kern.startswith("downsample"):
             c["f1"] = rng.choice((1, 2, 4))
@@ -58,6 +63,17 @@ class C19(Prop):
         cases = []
         for kern in KERNELS:
             cases += [self._case(rng, kern) for _ in range(5 * k)]
+            cases.append(self._case(rng, kern, rng.choice(self.SHAPES[-4:])))     # one wide-and-short shape each
+        return cases
+
+    def search(self, rng, tier):
+        """after a broken obligation: every kernel on every shape, more repetitions"""
+        cases = []
+        for kern in KERNELS:
+            for shape in self.SHAPES:
+                c = self._case(rng, kern, shape)
+                c["reps"] = 4
+                cases.append(c)
         return cases
 
     # ------------------------------------------------------------------
